@@ -240,6 +240,26 @@ harnesses! {
         forget(a); forget(b);
     }
 
+
+    // FFT block (3) larger than the FixedOut chunk (2): some calls consume no input
+    #[kani::unwind(12)]
+    #[kani::stub(realfft::RealFftPlanner::<f64>::new, crate::stubs::planner_new)]
+    #[kani::stub(realfft::RealFftPlanner::<f64>::plan_fft_forward, crate::stubs::plan_fwd)]
+    #[kani::stub(realfft::RealFftPlanner::<f64>::plan_fft_inverse, crate::stubs::plan_inv)]
+    #[kani::stub(rubato::sinc::make_sincs, crate::stubs::make_sincs_unit)]
+    fn c05_ftio_vs_fto_small_chunk(nd) {
+        let mut a = FftFixedInOut::<f64>::new(2, 3, 2, 1).unwrap();
+        let mut b = FftFixedOut::<f64>::new(2, 3, 1, 1, 1).unwrap();
+        let mut x = [0.0f64; 8];
+        crate::drive::fill_line(&mut x[..], 0);
+        let mut ya = [0.0f64; 8];
+        let mut yb = [0.0f64; 8];
+        let na = run_stream!(nd, a, x, ya, 8, 3, 2);
+        let nb = run_stream!(nd, b, x, yb, 8, 1, 6);
+        common_prefix_equal!(ya, na, yb, nb, 8, 6, "C05.variant_independent[base]");
+        forget(a); forget(b);
+    }
+
     // vacuity witness (must FAIL): different ratios
     #[kani::unwind(8)]
     fn c05_witness(nd) {
